@@ -105,6 +105,9 @@ def run(ctx, info):
     edge_jobs = [j for h, j in edge if h] + (r.sample(cold, min(len(cold), 150 * boost)) if ctx.quick else cold)
     ctx.coverage["edge_configurations"] = {"available": len(edge), "run": len(edge_jobs)}
     jobs += edge_jobs
+    from .. import edgesuite
+    elit = sorted(set(pinned) | set(observed))
+    edgesuite.run(ctx, "monotone", names=(r.sample(elit, 8 * boost) if ctx.quick else elit), focus=list(changed) + list(focus), elitist=set(elit))
     obs = search.run_jobs(jobs)
     n_ok = 0
     for o in obs:
